@@ -6,7 +6,7 @@
 From Coq Require Import ZArith Bool List.
 From ArmV Require Import Lib.PyZ Lib.Monad Lib.Machine Spec.Pseudocode Spec.Arch Spec.MachineView Spec.Exceptions
   Proofs.StateLemmas Proofs.BankProofs Proofs.MachineOps Proofs.ExcProofs.
-From Gen Require Import enums core.
+From Gen Require Import enums core step.
 Open Scope Z_scope.
 
 Theorem C11_enter_hyp_mode cfg s spsr pref off : xok cfg s -> truthy (cfg_have_virt_ext cfg) = true ->
@@ -52,3 +52,8 @@ Theorem C11_take_reset cfg s : xok cfg s -> word (getl (cfg_reset_values cfg) 21
   ArmV6_take_reset cfg s = Ok tt (TakeReset (xcfg_of cfg) (rcfg_of cfg) s).
 Proof. exact (take_reset_spec cfg s). Qed.
 Print Assumptions C11_take_reset.
+(* emulate_cycle hands every architectural exception raised by fetch/decode/execute to the matching entry,
+   from the state at the point of the raise; host errors and not-implemented errors propagate unchanged *)
+Theorem C11_dispatch cfg s : ArmV6_emulate_cycle cfg s = dispatch cfg (cycle_body cfg s).
+Proof. exact (emulate_cycle_dispatch cfg s). Qed.
+Print Assumptions C11_dispatch.
